@@ -52,8 +52,8 @@ pub fn field_type(rng: &mut Rng) -> String {
     (*rng.pick(&["u8", "String", "bool", "Option<u8>", "Vec<String>", "T", "Vec<T>", "&'a str", "syn::Ident", "Box<U>", "std::collections::HashMap<String, T>", "[u8; N]", "(u8, T)", "fn(T) -> U", "m!(x)"])).to_string()
 }
 
-const CONTAINER_OPTS: [&str; 38] = [
-    "default", "default = \"make\"", "default = path::make", "default = 5", "default(x)", "rename_all = \"snake_case\"", "rename_all = \"PascalCase\"", "rename_all = \"bogus\"", "rename_all = 5", "rename_all",
+const CONTAINER_OPTS: [&str; 41] = [
+    "default", "default = \"make\"", "default = path::make", "default = 5", "default(x)", "rename_all = \"snake_case\"", "rename_all = \"PascalCase\"", "rename_all = \"camelCase\"", "rename_all = \"SCREAMING_SNAKE_CASE\"", "rename_all = \"kebab-case\"", "rename_all = \"bogus\"", "rename_all = 5", "rename_all",
     "map = \"f\"", "map = f", "and_then = g", "and_then = \"a::g\"", "map = |x| x", "bound = \"T: Clone\"", "bound = \"\"", "bound = 5", "allow_unknown_fields", "allow_unknown_fields = false",
     "attributes(a)", "attributes(a, b::c)", "attributes()", "attributes = \"a\"", "forward_attrs", "forward_attrs(doc, allow)", "forward_attrs()", "forward_attrs = true", "from_ident", "from_ident = true",
     "supports(struct_named)", "supports(any)", "supports(enum_unit, enum_newtype, struct_tuple)", "supports(bogus)", "supports(struct_struct_named)", "supports(\"x\")", "supports", "supports(struct_any, enum_any)",
@@ -161,7 +161,7 @@ fn attrs(rng: &mut Rng, level: Level, p_any: u32) -> String {
     s
 }
 
-const FIELD_NAMES: [&str; 20] = ["a", "b", "c", "lorem", "ident", "attrs", "vis", "ty", "data", "generics", "bounds", "default", "discriminant", "fields", "r#type", "skip", "__errors", "items", "name", "x1"];
+const FIELD_NAMES: [&str; 24] = ["état_initial", "ünï", "__", "_x", "a", "b", "c", "lorem", "ident", "attrs", "vis", "ty", "data", "generics", "bounds", "default", "discriminant", "fields", "r#type", "skip", "__errors", "items", "name", "x1"];
 
 fn named_fields(rng: &mut Rng, n: usize) -> String {
     let mut used: Vec<&str> = vec![];
